@@ -129,7 +129,7 @@ def build_jobs(ctx):
     rng = random.Random(ctx.seed)
     jobs = []
     # ---- model inputs: every undirected graph, every digraph
-    for n in ([3, 4, 5] if ctx.quick else [2, 3, 4, 5, 6]):
+    for n in ([3, 4, 5] if ctx.quick else [3, 4, 5, 6]):
         graphs = inputs.model_graphs(ctx, "und", n)
         if n == 6:
             graphs = inputs.sample(rng, graphs, 6000)
@@ -219,7 +219,7 @@ def run(ctx):
                 "random graphs n in 6..10 (G(n,p), trees with cliques and isolated nodes). "
                 "non-trivial = distinct (function, input) for which some bound > 0 leaves a core "
                 "that is neither empty nor all non-isolated nodes"
-                % (("3..5", "a sample of 1200") if ctx.quick else ("2..5 (sample of 6000 on 6)", "every one")))
+                % (("3..5", "a sample of 1200") if ctx.quick else ("3..5 (sample of 6000 on 6)", "every one")))
     for j, r in zip(jobs, recs):
         if j["src"] == "model" and j["fn"] == "kcore_bu" and len(r["A"]) == 4 and any(r["sizes"][1:]):
             ctx.add_sample("model-input", dict(job=j, record=r))
